@@ -393,6 +393,21 @@ func damaged(e string) [][2]string {
 			if i+1 < len(e) && e[i+1] == '/' {
 				continue
 			}
+			// a path that *starts* with "/" is cut to "/", which is itself a valid expression:
+			// only a slash that follows a step is inside a construct
+			k := i - 1
+			if k >= 0 && e[k] == '/' {
+				k--
+			}
+			for k >= 0 && (e[k] == ' ' || e[k] == '\t' || e[k] == '\n') {
+				k--
+			}
+			if k < 0 || !(isNameByte(e[k]) || e[k] == ')' || e[k] == ']' || e[k] == '*' || e[k] == '\'' || e[k] == '"') {
+				continue
+			}
+			if k >= 2 && (strings.HasSuffix(e[:k+1], " and") || strings.HasSuffix(e[:k+1], " or") || strings.HasSuffix(e[:k+1], " div") || strings.HasSuffix(e[:k+1], " mod")) {
+				continue
+			}
 			add("cut-after-slash", e[:i+1])
 		case '+', '=', '|', '<', '>':
 			if i+1 < len(e) && e[i+1] == '=' {
